@@ -31,7 +31,7 @@ m = {
     "setup_cmd": "make -f build.mk FLAVOUR=asan -j16 && make -f build.mk FLAVOUR=fast -j16",
     "hooks": {
         "guard": "ONETBB_VERIF_SIM",
-        "enable": "make -f build.mk compiles /repo/src/tbb, /repo/src/tbbmalloc and the headers from the working tree with -DONETBB_VERIF_SIM=1 -DONETBB_VERIF_MIN_TASK_POOL=4 -include sim/prelude.h",
+        "enable": "make -f build.mk compiles /repo/src/tbb, /repo/src/tbbmalloc and the headers from the working tree with -DONETBB_VERIF_SIM=1 -DONETBB_VERIF_MIN_TASK_POOL=4 -DONETBB_VERIF_BACKREF_LEAF=8 -include sim/prelude.h",
         "baseline_off_cmd": "cmake -G Ninja -S /repo -B /repo/_build && cmake --build /repo/_build -j16 && ctest --test-dir /repo/_build -j8 --timeout 900",
         "source_commits": list(reversed(hook_commits)),
         "add_only": True,
